@@ -19,7 +19,7 @@ from multiprocessing import Pool
 
 
 class Variant:
-    def __init__(self, name, kind, file, old, new, expect=None, function=None, count=1, also=()):
+    def __init__(self, name, kind, file, old=None, new=None, expect=None, function=None, count=1, also=(), lines=()):
         self.name = name
         self.kind = kind            # 'break' | 'neutral'
         self.file = file            # path relative to repo root
@@ -29,6 +29,7 @@ class Variant:
         self.function = function
         self.count = count          # which occurrence (1-based); 0 = all
         self.also = also            # extra (file, old, new, count) edits applied together
+        self.lines = lines          # [(lineno, expected_stripped_text, replacement_line_without_indent)] line edits in `file`
 
 
 def _apply_one(text, old, new, count):
@@ -60,7 +61,19 @@ def _run_variant(args):
     tmp = tempfile.mkdtemp(prefix='sa-selftest-')
     try:
         copy_tree(root, tmp)
-        for (file, old, new, count) in [(v.file, v.old, v.new, v.count)] + list(v.also):
+        if v.lines:
+            p = os.path.join(tmp, v.file)
+            with open(p) as f:
+                src = f.read().split('\n')
+            for (ln, expected, repl) in v.lines:
+                cur = src[ln - 1]
+                if cur.strip() != expected.strip():
+                    return (v.name, 'skipped', 'line %d changed' % ln)
+                indent = cur[:len(cur) - len(cur.lstrip())]
+                src[ln - 1] = '\n'.join(indent + x for x in repl.split('\n'))
+            with open(p, 'w') as f:
+                f.write('\n'.join(src))
+        for (file, old, new, count) in ([(v.file, v.old, v.new, v.count)] if v.old is not None else []) + list(v.also):
             p = os.path.join(tmp, file)
             if not os.path.exists(p):
                 return (v.name, 'skipped', 'file missing')
